@@ -296,7 +296,7 @@ func runC12(p *core.Prog, r *core.Report, tier string) {
 			}
 		})
 	}
-	r.Floor("C12.e/f configurator calls", nInv, 2)
+	r.Floor("C12.e/f configurator calls", nInv, 1) // one call since the registration round goes through the locked accessor (F12 fix)
 
 	// (g) blocking waits have a way out
 	checkSelectsHaveDone(p, r, ds, fns, "C12.g")
